@@ -46,6 +46,9 @@ def series_transformers():
         update=True)
     add("boxcox", lambda: BoxCoxTransformer(), inverse=True, positive=True)
     add("boxcox_pearsonr", lambda: BoxCoxTransformer(method="pearsonr"), inverse=True, positive=True)
+    # bounds whose edge at 0 the search usually ends next to (a fitted exponent of a few 1e-6, not 0)
+    add("boxcox_bounds_pos", lambda: BoxCoxTransformer(bounds=(0, 2)), inverse=True, positive=True)
+    add("boxcox_bounds_neg", lambda: BoxCoxTransformer(bounds=(-2, 0)), inverse=True, positive=True)
     add("log", lambda: LogTransformer(), inverse=True, positive=True)
     add("adapt_standard", lambda: TabularToSeriesAdaptor(StandardScaler()), inverse=True)
     add("adapt_minmax", lambda: TabularToSeriesAdaptor(MinMaxScaler()), inverse=True)
@@ -54,6 +57,10 @@ def series_transformers():
     # the flag as a numpy boolean, as it comes out of a parameter grid built from an array
     add("optpass_np_false", lambda: OptionalPassthrough(LogTransformer(), passthrough=np.bool_(False)), inverse=True, positive=True)
     add("optpass_np_true", lambda: OptionalPassthrough(LogTransformer(), passthrough=np.bool_(True)), inverse=True, positive=True)
+
+    # an inner transformer that learns from the data it is fitted on
+    add("optpass_minmax", lambda: OptionalPassthrough(TabularToSeriesAdaptor(MinMaxScaler()), passthrough=False), inverse=True)
+    add("optpass_boxcox", lambda: OptionalPassthrough(BoxCoxTransformer(), passthrough=False), inverse=True, positive=True)
 
     def reconfigured():
         # fitted once as a real transformer, then switched to passthrough with set_params (fit follows)
